@@ -261,6 +261,7 @@ def eq(a, b):
         i = z3.Int('eqi!%d' % next(_fresh))
         return z3.And(a.n == b.n, z3.ForAll([i], z3.Implies(z3.And(0 <= i, i < a.n), z3.Select(a.arr, i) == z3.Select(b.arr, i))))
     if isinstance(a, VSet): return a.mem == b.mem
+    if isinstance(a, VDict): return z3.And(a.has == b.has, a.val == b.val)      # sufficient condition (used for `unchanged` clauses)
     if isinstance(a, VRec) and set(a.fields) == set(b.fields): return z3.And([eq(a.fields[k], b.fields[k]) for k in sorted(a.fields)])
     raise ToolLimit('== on %s' % type(a).__name__)
 
